@@ -494,6 +494,18 @@ pub fn noise_pool(cfg: &TableCfg) -> Vec<Vec<u8>> {
     pool
 }
 
+/// Whether a line of arbitrary garbage (matching no pattern, not JSON, no separator) is non-admitted under `cfg`.
+pub fn garbage_is_noise(cfg: &TableCfg) -> bool {
+    let has_default = cfg.kmod == KMod::Default || cfg.nmod == NMod::Default;
+    let k_required = cfg.kmod == KMod::NotNull;
+    let n_required = cfg.nmod == NMod::NotNull;
+    match cfg.variant {
+        // field 1 of a split table always exists
+        Variant::Split => n_required,
+        _ => !has_default || k_required || n_required,
+    }
+}
+
 pub fn gen_noise(rng: &mut Rng, cfg: &TableCfg) -> Vec<u8> {
     let pool = noise_pool(cfg);
     if pool.is_empty() {
@@ -708,6 +720,8 @@ pub fn agg_pool(cfg: &TableCfg, order_insensitive: bool, p: &str) -> Vec<String>
     if cfg.with_b {
         pool.push(format!("BOOL_AND({}b)", p));
         pool.push(format!("BOOL_OR({}b)", p));
+        pool.push(format!("MIN({}b)", p));
+        pool.push(format!("MAX({}b)", p));
     }
     if cfg.with_ts {
         pool.push(format!("MIN({}d)", p));
